@@ -22,7 +22,7 @@ t1=$?
 [ $t1 -eq 0 ] || { cargo test --offline --lib -- --skip closest_nodes::tests::simulation --skip concurrent_put_mutable_different >>$log 2>&1; t1=$?; }
 demo_cmd=$(python3 -c "import json,sys; print(json.load(open('$src/meta.json')).get('demo_cmd',''))")
 # demo application: demo.diff if present, else copy files
-if [ -f "$src/demo.diff" ]; then git apply --3way "$src/demo.diff" >>$log 2>&1 || { res "DEMO-APPLY-FAILED"; cleanup; exit 6; }; git reset -q; fi
+if [ -f "$src/demo.diff" ]; then git add -A; git apply "$src/demo.diff" >>$log 2>&1 || git apply --3way "$src/demo.diff" >>$log 2>&1 || { res "DEMO-APPLY-FAILED"; cleanup; exit 6; }; git reset -q; fi
 # strip leading 'git apply ... &&' and 'cd ... &&' parts from demo_cmd
 cmd=$(echo "$demo_cmd" | sed -E 's/^(cd [^&]*&& *)?(git apply [^&]*&& *)?//')
 res "demo cmd: $cmd"
